@@ -78,6 +78,20 @@ let output_bytes oc (l : byte list) =
 
 exception Parse_error of str
 
+let alnum_of (t : str) : z list =
+  if t = "-" then [] else L.map z_of_string (S.split_on_char ',' t)
+
+let floats_of (t : str) =
+  if t = "-" then []
+  else
+    L.map (fun p ->
+        match S.split_on_char ':' p with
+        | [tok; s32; b32; s64; b64] ->
+          (bytes_of_hex tok, (((z_of_string s32, z_of_string b32), z_of_string s64), z_of_string b64))
+        | _ -> raise (Parse_error "float oracle"))
+      (S.split_on_char ';' t)
+
+
 let ikinds = [| Kint; Kint8; Kint16; Kint32; Kint64; Kuint; Kuint8; Kuint16; Kuint32; Kuint64 |]
 
 let parse_steps (toks : str list) : step list =
@@ -158,6 +172,13 @@ let parse_steps (toks : str list) : step list =
       SCtlRejectReq (sid, pt, st, sys, reason)
     | "CPQ" -> let sid = num () in SCtlSeparateReq (sid, hexs ())
     | "HB" -> let typ = hexs () in SHeader (typ, num ())
+    | "SP" ->
+      let input = hexs () in
+      let alnum = alnum_of (next ()) in
+      let floats = floats_of (next ()) in
+      SSml (input, alnum, floats)
+    | "SX" -> let input = hexs () in SLex (input, alnum_of (next ()))
+    | "PK" -> let r = nat () in SPick (r, nat ())
     | t -> raise (Parse_error ("step " ^ t))
   in
   let r = ref [] in
